@@ -93,9 +93,13 @@ _HIDDEN_BUILTIN_TYPES: Dict[str, type] = {
 
 
 def typed_dict_from_dict(d: TypeDict) -> type:
-    return TypedDict(
+    typed_dict = TypedDict(
         d["qualname"], {k: type_from_dict(v) for k, v in d["elem_types"].items()}
     )
+    # The module is part of the encoding; keep it, so that re-encoding a decoded
+    # type gives the text it was decoded from.
+    typed_dict.__module__ = d["module"]
+    return typed_dict
 
 
 def type_from_dict(d: TypeDict) -> type:
